@@ -70,6 +70,16 @@ def stack_programs(quick):
                       + wrap_thread('println("${f(0)}");', spawned), "stack", None))
         progs.append(("rec-closure-%s" % tag, "class R { f: (Int64): Int64 }\nfn mk(): R { let r = R(f = |n: Int64|: Int64 { n }); r.f = |n: Int64|: Int64 { (r.f)(n + 1) + 1 }; r }\n"
                       + wrap_thread('let r = mk(); println("${(r.f)(0)}");', spawned), "stack", None))
+        # frames of k x 256 KB (k locals of a 256 KB struct): the stack limit is crossed at a different distance from the
+        # mapped end of the stack for every k, so a stack that has too little room below the limit for the overflow
+        # report (the prologue moves rsp first and compares afterwards) is hit for some k whatever the alignment
+        for k in ((2, 3, 5) if quick else (2, 3, 4, 5)):
+            decl = " ".join("let s%d = m5();" % i for i in range(k))
+            use = " + ".join("s%d.a.a.a.a.a" % i for i in range(k))
+            progs.append(("rec-struct%dx256K-%s" % (k, tag), STRUCTS + "fn f(n: Int64): Int64 { %s f(n + 1) + %s }\n" % (decl, use)
+                          + wrap_thread('println("${f(0)}");', spawned), "stack", "frame>=512K"))
+            progs.append(("frame%dx256K-once-%s" % (k, tag), STRUCTS + "fn g(n: Int64): Int64 { %s n + %s }\n" % (decl, use)
+                          + wrap_thread('println("${g(1)}");', spawned), "bigframe", "frame>=512K"))
         # a single frame larger than any stack: no recursion needed
         progs.append(("frame2M-once-%s" % tag, STRUCTS + wrap_thread('let s = m6(); println("${s.a.a.a.a.a.a}");', spawned), "bigframe", "frame>=2M"))
         progs.append(("rec-struct2M-%s" % tag, STRUCTS + "fn f(n: Int64): Int64 { let s = m6(); f(n + 1) + s.a.a.a.a.a.a }\n"
@@ -172,7 +182,7 @@ def run(ctx):
             for (gc, gfl) in gcs:
                 if kind == "array" and gc != "swiper":
                     continue
-                if be == "boots" and re.search(r"struct(32K|256K|2M)|frame2M", name):
+                if be == "boots" and re.search(r"struct(32K|256K|2M|\dx256K)|frame(2M|\dx256K)", name):
                     # the optimizing compiler needs > 15 min (or runs out of memory) for structs of 32 KB and more:
                     # a compile-time matter, not C13's; those frame sizes are exercised with the baseline generator
                     skipped_boots.append(name)
